@@ -28,6 +28,7 @@ PROBE_SRC = '''
 from pysmt.solvers.solver import IncrementalTrackingSolver, Solver
 from pysmt.solvers.options import SolverOptions
 from pysmt.decorators import clear_pending_pop
+from pysmt.exceptions import SolverReturnedUnknownResultError
 
 
 class ProbeOptions(SolverOptions):
@@ -80,10 +81,21 @@ class ProbeSolver(IncrementalTrackingSolver):
 class RefusingProbeSolver(ProbeSolver):
     """Back-end that refuses what it is told to refuse: an assertion it cannot take, a push beyond its depth."""
 
-    def __init__(self, environment, logic, log, answers, refuse, max_depth, **options):
+    def __init__(self, environment, logic, log, answers, refuse, max_depth, hard=(), **options):
         ProbeSolver.__init__(self, environment, logic, log, answers, **options)
         self.refuse = refuse
         self.max_depth = max_depth
+        self.hard = hard
+
+    @clear_pending_pop
+    def _solve(self, assumptions=None):
+        live = [f for frame in self.native for f in frame]
+        for f in live + list(assumptions or []):
+            for h in self.hard:
+                if h is f:
+                    raise SolverReturnedUnknownResultError()
+        self.log.append(("solve", tuple(live), tuple(assumptions) if assumptions else ()))
+        return self.answers.pop(0)
 
     @clear_pending_pop
     def _add_assertion(self, formula, named=None):
@@ -272,29 +284,32 @@ def _names(w, nodes):
 
 # ---------------------------------------------------------------------------------- tracking solver after a failing call
 ITS_F_HEADS = [("S", "XA"), ("A", "S", "XA"), ("XA",), ("P", "XA", "O"), ("P", "XA"), ("A", "P", "P", "XP"), ("P", "S", "XP", "O"), ("Q", "XA"), ("A", "XA", "XA"),
-               ("P", "A", "S", "XP", "O")]
+               ("P", "A", "S", "XP", "O"),
+               # a one-shot query that fails: its assertion is refused (XQ), its solve answers unknown (XU)
+               ("XQ",), ("A", "XQ"), ("P", "A", "XQ", "O"), ("P", "XQ"), ("XU",), ("P", "A", "XU", "O"), ("A", "S", "XU"), ("Q", "XQ", "XU")]
 ITS_F_TAILS = [("LC",), ("S", "LC"), ("B", "S"), ("P", "B", "O", "S"), ("Q", "S"), ("LR", "B", "LC")]
 ITS_F_NAMES = dict(NAMES, XA="assert d (refused by the back-end)", XP="push 2 (refused by the back-end: too deep)", LC="read last_command",
+                   XQ="is_sat d (the back-end refuses the assertion)", XU="is_sat e (the back-end answers unknown)",
                    LR="read last_result")
 
 
 def _its_fail_chunk(cases):
     repo = get_repo()
     repo.add_virtual(PROBE_MOD, PROBE_SRC)
-    shape = Shape(("And", S("a"), S("b"), S("c"), S("d")))
+    shape = Shape(("And", S("a"), S("b"), S("c"), S("d"), S("e")))
 
     def call(w, it, f):
         it.apply_decorators = {"pysmt.decorators.clear_pending_pop"}
-        a, b, c, d = w.nargs(f)
+        a, b, c, d, e = w.nargs(f)
         logic = it.module_global(w.repo.modules["pysmt.logics"], "QF_BOOL")
 
         def run(seq, skip):
             log = []
             answers = [False, True] * (len(seq) + 2)
-            solver = it.instantiate(ClassRef(PROBE_MOD + ".RefusingProbeSolver"), [w.env, logic, log, answers, [d], 2], {})
+            solver = it.instantiate(ClassRef(PROBE_MOD + ".RefusingProbeSolver"), [w.env, logic, log, answers, [d], 2, [e]], {})
             outs = []
             for x in seq:
-                if x in ("XA", "XP") and skip:
+                if x in ("XA", "XP", "XQ", "XU") and skip:
                     continue
                 try:
                     if x in ("A", "B", "XA"):
@@ -310,6 +325,8 @@ def _its_fail_chunk(cases):
                         r = it.call(it.getattr(solver, "solve"), [])
                     elif x == "Q":
                         r = it.call(it.getattr(solver, "is_sat"), [c])
+                    elif x in ("XQ", "XU"):
+                        r = it.call(it.getattr(solver, "is_sat"), [d if x == "XQ" else e])
                     elif x == "LC":
                         r = it.getattr(solver, "last_command")
                     elif x == "LR":
@@ -317,7 +334,7 @@ def _its_fail_chunk(cases):
                     out = ("returns", r)
                 except AbsRaise as ex:
                     out = ("raises", ex.cls_name)
-                if x in ("XA", "XP"):
+                if x in ("XA", "XP", "XQ", "XU"):
                     if out[0] != "raises":
                         outs.append((x, ("the refused call", out)))
                     continue
@@ -369,7 +386,10 @@ _IFCACHE = {}
 def its_failure_results(repo, tier="quick"):
     key = (repo.root, tier)
     if key not in _IFCACHE:
-        cases = [(h, t) for h in ITS_F_HEADS for t in ITS_F_TAILS]
+        # right after a failed one-shot query `last_command` names the steps the query really performed (its push) and
+        # `last_result` is "unknown" after an unknown verdict - as documented; they are compared from the next command on
+        cases = [(h, t) for h in ITS_F_HEADS for t in ITS_F_TAILS
+                 if not ((h[-1] in ("XQ", "XU") and t[0] == "LC") or ("XU" in h and "LR" in t))]
         if tier == "thorough":
             cases += [(h1 + h2, t) for h1 in ITS_F_HEADS[:5] for h2 in ITS_F_HEADS[:5] for t in ITS_F_TAILS]
             cases += [(h, t1 + t2) for h in ITS_F_HEADS for t1 in ITS_F_TAILS for t2 in ITS_F_TAILS[1:4]]
